@@ -167,7 +167,84 @@ def run_history(entry, scs, seed, variant):
                          "how": "harness.drivers.c05.run_history(entry, scenarios, seed, variant)"}}
 
 
+def run_ma_history(kind, inner_name, scs, seed):
+    """multi-annotator strategies: the same frame events (caller arrays incl. the annotators / A_perf
+    arguments, the model argument = wrapped strategy or classifier, own parameters)"""
+    from skactiveml.pool.multiannotator import IntervalEstimationThreshold, SingleAnnotatorWrapper
+
+    from . import c07
+
+    ids = Ids()
+    if kind == "wrapper":
+        e = ENTRIES[inner_name]
+        inner = e.make(seed, np.nan, (0, 1))
+        qs = SingleAnnotatorWrapper(inner, random_state=seed)
+    else:
+        from skactiveml.classifier.multiannotator import AnnotatorLogisticRegression
+
+        inner = AnnotatorLogisticRegression(classes=[0, 1], random_state=seed, max_iter=5)
+        qs = IntervalEstimationThreshold(random_state=seed)
+    params0 = ids(params_digest(qs))
+    events = []
+    for step, sc in enumerate(scs):
+        conc = c07.concretise(sc, seed + step)
+        rng = np.random.RandomState(seed + 31 * step)
+        X, y = conc["X"].copy(), conc["y"].copy()
+        cand = None if conc["candidates"] is None else np.array(conc["candidates"])
+        ann = None if conc["annotators"] is None else np.array(conc["annotators"])
+        kw = {}
+        aperf = None
+        if kind == "wrapper":
+            kw.update(zoo.model_kwargs(ENTRIES[inner_name], np.nan, (0, 1), seed=seed))
+            kw["n_annotators_per_sample"] = int(sc["pref"])
+            kw["batch_size"] = int(sc["bs"])
+            if step % 2:
+                n_cand = len(cand) if cand is not None else sc["ns"]
+                aperf = rng.rand(n_cand, conc["na"])
+                kw["A_perf"] = aperf
+            # the wrapped strategy is a constructor parameter of the wrapper (covered by get_params(deep=True));
+            # the model argument is the classifier / ensemble handed through query
+            model = [v for k, v in kw.items() if k in ("clf", "reg", "ensemble", "discriminator")]
+        else:
+            kw["clf"] = inner
+            kw["batch_size"] = int(sc["bs"]) if sc["bs"] != 10 else "adaptive"
+            model = inner
+
+        def snap():
+            return {"X": ids(ab.digest(X)), "y": ids(ab.digest(y)),
+                    "cand": ids(ab.digest(cand) if cand is not None else "none"),
+                    "sw": ids(ab.digest(ann) if ann is not None else "none"),      # annotators argument
+                    "uw": ids(ab.digest(aperf) if aperf is not None else "none"),  # A_perf argument
+                    "model": ids(model_digest(model)), "params": ids(params_digest(qs))}
+
+        pre = snap()
+        events.append({"ev": "Args", "data": pre["X"], "model": pre["model"]})
+        try:
+            with warnings.catch_warnings():
+                warnings.simplefilter("ignore")
+                with np.errstate(all="ignore"):
+                    with pc.time_limit(6):
+                        res = qs.query(X, y, candidates=cand, annotators=ann, return_utilities=bool(step % 2), **kw)
+            events.append({"ev": "Query", "pre": pre, "post": snap(), "res": ids(result_digest(res))})
+        except BaseException as ex:      # incl. the watchdog: the frame is checked anyway (C07 owns the failure)
+            events.append({"ev": "Query", "pre": pre, "post": snap(), "res": 0,
+                           "raised": "%s: %s" % (type(ex).__name__, str(ex)[:120])})
+    try:
+        pickle.dumps(qs)
+        events.append({"ev": "Pickle", "ok": True})
+    except Exception as ex:
+        events.append({"ev": "Pickle", "ok": False, "exc": "%s: %s" % (type(ex).__name__, str(ex)[:120])})
+    name = "SingleAnnotatorWrapper(%s)" % inner_name if kind == "wrapper" else "IntervalEstimationThreshold"
+    return {"id": "%s/%s/seed%d/v0" % (name, "+".join("%s-%s-ns%d-na%d-bs%d" % (s["cmode"], s["amode"], s["ns"], s["na"], s["bs"])
+                                                      for s in scs), seed),
+            "params0": params0, "events": events,
+            "concrete": {"strategy": name, "scenarios": scs, "seed": seed,
+                         "how": "harness.drivers.c05.run_ma_history(kind, inner, scenarios, seed)"}}
+
+
 def _job(arg):
+    if arg[0] == "__ma__":
+        return run_ma_history(*arg[1:])
     name, scs, seed, variant = arg
     return run_history(ENTRIES[name], scs, seed, variant)
 
@@ -246,6 +323,18 @@ def main(tier="quick", seed=0):
             k = 1 + n_ % 3
             scs = [pool[int(i)] for i in rng.choice(len(pool), size=k, replace=False)]
             jobs.append((e.name, scs, int(rng.integers(0, 1000)), n_ % 3))
+    # multi-annotator strategies on MultiAnnotGen scenarios
+    from . import c07
+
+    ma = chk.generate("MultiAnnotGen", "MultiAnnotGen.cfg", extra=("-seed", str(seed + 1)))
+    ma = [s for s in ma if c07.n_avail(s) >= 1]
+    for n_ in range(120 if quick else 1500):
+        k = 1 + n_ % 3
+        scs = [ma[int(i)] for i in rng.choice(len(ma), size=k, replace=False)]
+        inner = c07.INNER[n_ % len(c07.INNER)]
+        if any(s["cmode"] == "rows" for s in scs) and not ENTRIES[inner].rows:
+            inner = "RandomSampling"
+        jobs.append(("__ma__", "wrapper" if n_ % 4 else "iet", inner, scs, int(rng.integers(0, 1000))))
     traces = pmap(_job, jobs, chunksize=2)
     chk.count(sum(sum(1 for e in t["events"] if e["ev"] == "Query") for t in traces))
     for t in traces:
@@ -259,5 +348,7 @@ def main(tier="quick", seed=0):
     chk.assumptions = ["digests are SHA-1 over dtype/shape/bytes of arrays and the canonical content of parameters "
                        "(dicts by content, nested estimators by class and parameters, callables by qualified name)",
                        "fitted state of the model argument = its instance dictionary",
-                       "multi-annotator strategies are covered by the C07 driver's frame events"]
+                       "multi-annotator strategies: SingleAnnotatorWrapper (the model handed through query is the model "
+                       "argument; the wrapped strategy is a constructor parameter) and IntervalEstimationThreshold on MultiAnnotGen scenarios; the annotators and A_perf "
+                       "arguments take the sample_weight / utility_weight slots of the frame record"]
     return chk.finish()
